@@ -2,6 +2,9 @@ module limeverif
 
 go 1.14
 
-require github.com/takenet/lime-go v0.0.0
+require (
+	github.com/gorilla/websocket v1.4.2
+	github.com/takenet/lime-go v0.0.0
+)
 
 replace github.com/takenet/lime-go => /repo
